@@ -150,6 +150,72 @@ def narrow_arith_rule(chk, src):
     return n
 
 
+def term_table_rule(chk, src):
+    """abstract run of _terms_to_table on symbolic terms: row i of the table and entry i of the factor list are those of term i.  Two of the
+    terms are the same operator string (same symbol, same degrees of freedom, same elementary operators) with different coefficients and a third
+    shares one elementary operator with them, so that any memoisation keyed on less than the whole term shows up."""
+    from ..syminterp import SymInterp, Sym, OpenSym, Blob
+    fi = src.func(SYM, "_terms_to_table")
+    problems = []
+    for const in (0, 0.37):
+        ident = {}
+
+        def identity(dof, qn_size=None, _ident=ident):
+            return _ident.setdefault(dof, Sym(f"I({dof})", dofs=[dof], symbol="I", factor=1.0))
+        sites = {"a": 0, "b": 1, "c": 2, "c2": 2}
+        basis = [Sym("basis0", multi_dof=False, dof="a"), Sym("basis1", multi_dof=False, dof="b"), Sym("basis2", multi_dof=True, dof=["c", "c2"])]
+        model = Sym("model", basis=basis, dof_to_siteidx=sites, qn_size=1)
+        xa, zb, yc = Sym("X(a)", dofs=["a"], symbol="X"), Sym("Z(b)", dofs=["b"], symbol="Z"), Sym("Y(c2)", dofs=["c2"], symbol="Y")
+        spec = [("t0", "X Z", ["a", "b"], [xa, zb], "f0"), ("t1", "X Z", ["a", "b"], [xa, zb], "f1"), ("t2", "X Y", ["a", "c2"], [xa, yc], "f2"), ("t3", "Y", ["c2"], [yc], "f3")]
+        terms = [Sym(n, symbol=sy, dofs=list(d), factor=f + "(unsplit)", qn_list=[0] * len(d), split_elementary=(lambda m, _e=e, _f=f: (list(_e), _f))) for n, sy, d, e, f in spec]
+        got = {}
+
+        class _Arr(Sym):
+            def __init__(self, data):
+                super().__init__("array")
+                self.data = data
+                self.shape = (len(data),) + ((len(data[0]),) if data and isinstance(data[0], list) else ())
+
+        def dedup(table, factor):
+            got["table"], got["factor"] = table, factor
+            return table, factor
+        it = SymInterp(src, None, {"np": OpenSym("np", array=lambda x, dtype=None: _Arr(x), iinfo=lambda t: Sym("iinfo", max=10 ** 9), uint16="uint16", uint32="uint32"),
+                                   "logger": OpenSym("logger"), "Op": Sym("Op", identity=identity), "_deduplicate_table": dedup})
+        try:
+            res = it.call_function(fi, [model, terms, const])
+        except Exception as e:  # noqa: BLE001 - any failure of the abstract run is reported as a finding of the rule
+            problems.append(f"const={const}: {type(e).__name__}: {e}")
+            continue
+        if not (isinstance(res, tuple) and len(res) == 3 and "table" in got and isinstance(got["table"], _Arr) and isinstance(got["factor"], _Arr)):
+            problems.append(f"const={const}: the table and the factor list do not reach _deduplicate_table / the result")
+            continue
+        prim = res[1]
+        rows, facs = got["table"].data, got["factor"].data
+        want_f = [f for *_x, f in spec] + ([const] if const != 0 else [])
+        if facs != want_f:
+            problems.append(f"const={const}: factor list {facs}, expected {want_f} (entry i = coefficient returned by term i's own split_elementary, the constant last)")
+        want_rows = []
+        for n, sy, d, e, f in spec:
+            r = [identity("a"), identity("b"), identity("c")]
+            for x in e:
+                r[sites[x.dofs[0]]] = x
+            want_rows.append(r)
+        if const != 0:
+            want_rows.append([identity("a"), identity("b"), identity("c")])
+        try:
+            have_rows = [[prim[k] for k in r] for r in rows]
+        except (IndexError, TypeError) as e:
+            have_rows = f"{type(e).__name__}: {e}"
+        if have_rows != want_rows:
+            problems.append(f"const={const}: table rows resolve to {have_rows}, expected {want_rows}")
+        if len(set(map(id, prim))) != len(prim):
+            problems.append(f"const={const}: a primary operator is registered twice: {prim}")
+    chk.ob("term-table", "row i and coefficient i of the operator table come from term i (terms with equal operator strings keep their own coefficient)", not problems, fi.where,
+           problems[:2] or "as expected", "as expected", line=fi.node.lineno,
+           detail="the table handed to the decomposition must hold, per term, the indices of that term's own elementary operators and that term's own coefficient; " + (problems[0] if problems else "")
+                  + " - otherwise the built operator is the sum of different terms than the ones given")
+
+
 def run(chk):
     src = chk.src
     chk.explanation = (
@@ -172,6 +238,7 @@ def run(chk):
     chk.rule("qr-shortcut-shape", "_decompose_qr: the branch that skips the QR factorisation is shape-consistent and guarded by `one column`", 2)
     qr_shortcut_rule(chk, src)
     chk.rule("split-order", "Op.split_elementary keeps intra-site symbol order, sites ascending; duplicates merged by summing factors", 4)
+    chk.rule("term-table", "_terms_to_table: row i and coefficient i are those of term i; constant last, only when non-zero (abstract run on terms with equal operator strings)", 1)
     s = sp.Symbol("s")
     # ---- offset
     init = src.func(MPO, "Mpo.__init__")
@@ -398,6 +465,7 @@ def run(chk):
         chk.ob("layout", f"{qual}: accumulated (rows), (columns) order", legs == want and edges == {frozenset([("res", ranks[0] - 1), ("mt", 0)])}, fi.where,
                [f"{a}.{b}" for a, b in legs], [f"{a}.{b}" for a, b in want], line=asg[0].lineno,
                detail=f"{qual} must chain the bond and keep (row of previous sites, row of this site), (column ..) adjacent before merging")
+    term_table_rule(chk, src)
     # ---- split order / dedup
     se = src.func(OPF, "Op.split_elementary")
     loops = [n for n in ast.walk(se.node) if isinstance(n, ast.For)]
